@@ -17,30 +17,36 @@ func RegisterFilter(filter Filter) {
 	Filters = append(Filters, filter)
 }
 
+// Checks whether the suite may contain cases that satisfy all filters.
+// Returns SUITE_MATCH_FULL when every filter fully matches the suite
+// (or one of its ancestors), so all of its cases are selected.
 func SuiteMatchesFilters(suite *Suite) SuiteMatch {
 	if suite.FullMatch {
 		return SUITE_MATCH_FULL
 	}
+	if len(Filters) == 0 {
+		return SUITE_MATCH_TRUE
+	}
 
-	var result SuiteMatch
+	result := SUITE_MATCH_FULL
 
 	for _, filter := range Filters {
-		suiteMatch := filter.SuiteMatches(suite)
-		switch suiteMatch {
+		if suite.isFullyMatchedBy(filter) {
+			continue
+		}
+
+		switch filter.SuiteMatches(suite) {
 		case SUITE_MATCH_FALSE:
-			return suiteMatch
+			return SUITE_MATCH_FALSE
 		case SUITE_MATCH_FULL:
-			if result == SUITE_MATCH_FALSE {
-				result = SUITE_MATCH_FULL
-			}
+			// every case in this suite satisfies this filter,
+			// the remaining filters still have to be checked
+			suite.fullMatchFilters = append(suite.fullMatchFilters, filter)
 		case SUITE_MATCH_TRUE:
 			result = SUITE_MATCH_TRUE
 		}
 	}
 
-	if result == SUITE_MATCH_FALSE {
-		return SUITE_MATCH_TRUE
-	}
 	return result
 }
 
@@ -50,6 +56,9 @@ func CaseMatchesFilters(testCase *Case) bool {
 	}
 
 	for _, filter := range Filters {
+		if testCase.Parent.isFullyMatchedBy(filter) {
+			continue
+		}
 		if !filter.CaseMatches(testCase) {
 			return false
 		}
